@@ -32,7 +32,7 @@ type c17Scenario struct {
 	Want       string `json:"want,omitempty"`
 }
 
-var c17Chars = []string{"a", "é", "中", "😀", "�", "\n", "𠀀", "ß"}
+var c17Chars = []string{"a", "é", "中", "😀", "�", "\n", "𠀀", "ß", "\uFEFF"}
 var c17Counts = []int{0, 1, 2, 3, 5, 40, 1023, 1024, 1364, 1365, 1366, 2047, 2048, 4093, 4094, 4095, 4096, 4097, 8191, 8192, 8193, 13000}
 
 type corruption struct {
